@@ -38,7 +38,13 @@ def decided_by(prop, verdicts, known_refuted):
         return 'obligation(s) refuted (%d) + replay on the real code' % extra
     others = [c for c, w in sorted(verdicts.items()) if c != prop and w['exit'] == 1 and (w['refuted_obligations'] or 0) - known_refuted.get(c, 0) > 0]
     unsup = re.search(r'unsupported=(\d+)', v.get('stats', ''))
-    note = 'bounded stand-in of %s' % prop + (' (its proof is undecided on the changed code: %s unsupported constructs)' % unsup.group(1) if unsup and unsup.group(1) != '0' else ' (its obligations still discharge)')
+    undec = re.search(r'undecided=(\d+)', v.get('stats', ''))
+    if unsup and unsup.group(1) != '0':
+        note = 'bounded stand-in of %s (its proof is undecided on the changed code: %s unsupported constructs)' % (prop, unsup.group(1))
+    elif undec and undec.group(1) != '0':
+        note = 'bounded stand-in of %s (its proof is undecided on the changed code: %s obligations without a solver verdict)' % (prop, undec.group(1))
+    else:
+        note = 'bounded stand-in of %s (its obligations still discharge)' % prop
     if others:
         note += '; obligations of %s refuted (callee contract this property relies on)' % ', '.join(others)
     return note
